@@ -102,6 +102,158 @@ impl<'a> Parser<'a> {
     }
 }
 
+// ---- absolute anchor: the value of an int / bool expression grouped by the table, computed
+// with the reference operator semantics (C08's), so that a grouping error that affects the
+// unparenthesised and the parenthesised text alike is still seen
+#[derive(Clone, Debug)]
+enum Node {
+    Leaf(usize),
+    Pre(String, Box<Node>),
+    Bin(String, Box<Node>, Box<Node>),
+}
+
+#[derive(Clone, Debug, PartialEq)]
+enum RV {
+    I(i64),
+    B(bool),
+}
+
+/// Err(Some(kind)) = fails with that documented error; Err(None) = outside the reference
+/// (ill-typed or an operator it does not model)
+type REval = Result<RV, Option<&'static str>>;
+
+impl<'a> Parser<'a> {
+    fn tree(&mut self, min_bp: u8, leaf: &mut usize) -> Option<Node> {
+        let mut lhs = match self.toks[self.i].clone() {
+            Tok::Prefix(op) => {
+                self.i += 1;
+                Node::Pre(op, Box::new(self.tree(15 - PREFIX_LEVEL, leaf)?))
+            }
+            Tok::Operand(_) => {
+                self.i += 1;
+                *leaf += 1;
+                Node::Leaf(*leaf - 1)
+            }
+            _ => return None,
+        };
+        while self.i < self.toks.len() {
+            match self.toks[self.i].clone() {
+                Tok::Postfix(_) => return None,
+                Tok::Bin(op) => {
+                    let (level, right) = bin_level(&op);
+                    let bp = 15 - level;
+                    let (l_bp, r_bp) = if right { (bp, bp) } else { (bp, bp + 1) };
+                    if l_bp < min_bp {
+                        break;
+                    }
+                    self.i += 1;
+                    let rhs = self.tree(r_bp, leaf)?;
+                    lhs = Node::Bin(op, Box::new(lhs), Box::new(rhs));
+                }
+                _ => return None,
+            }
+        }
+        Some(lhs)
+    }
+}
+
+fn ref_eval(n: &Node, vals: &[RV]) -> REval {
+    use crate::props::c08::{ref_int, Ref};
+    match n {
+        Node::Leaf(i) => Ok(vals[*i].clone()),
+        Node::Pre(op, x) => match (op.as_str(), ref_eval(x, vals)?) {
+            ("-", RV::I(v)) => Ok(RV::I(v.wrapping_neg())),
+            ("!", RV::I(v)) => Ok(RV::I(!v)),
+            ("!", RV::B(v)) => Ok(RV::B(!v)),
+            _ => Err(None),
+        },
+        Node::Bin(op, l, r) => {
+            let op = op.as_str();
+            let lv = ref_eval(l, vals)?;
+            // && and || decide on the left operand alone when they can
+            if op == "&&" || op == "||" {
+                let RV::B(a) = lv else { return Err(None) };
+                if (op == "&&" && !a) || (op == "||" && a) {
+                    return Ok(RV::B(a));
+                }
+                return match ref_eval(r, vals)? {
+                    RV::B(b) => Ok(RV::B(b)),
+                    _ => Err(None),
+                };
+            }
+            let rv = ref_eval(r, vals)?;
+            match (lv, rv) {
+                (RV::I(a), RV::I(b)) if ["+", "-", "*", "/", "%", "**", "<<", ">>", "&", "|", "^", "==", "!=", "<", "<=", ">", ">="].contains(&op) => match ref_int(op, a, b) {
+                    Ref::Val(s) => Ok(match s.as_str() {
+                        "true" => RV::B(true),
+                        "false" => RV::B(false),
+                        v => RV::I(v.parse().unwrap()),
+                    }),
+                    Ref::Err(kind) => Err(Some(kind)),
+                },
+                (RV::B(a), RV::B(b)) => match op {
+                    "&" => Ok(RV::B(a & b)),
+                    "|" => Ok(RV::B(a | b)),
+                    "^" => Ok(RV::B(a ^ b)),
+                    "==" => Ok(RV::B(a == b)),
+                    "!=" => Ok(RV::B(a != b)),
+                    _ => Err(None),
+                },
+                _ => Err(None),
+            }
+        }
+    }
+}
+
+/// static type of the tree over int (true) / bool (false) leaves, None when ill-typed
+fn ref_type(n: &Node, is_int: &[bool]) -> Option<bool> {
+    match n {
+        Node::Leaf(i) => Some(is_int[*i]),
+        Node::Pre(op, x) => match (op.as_str(), ref_type(x, is_int)?) {
+            ("-", true) => Some(true),
+            ("!", t) => Some(t),
+            _ => None,
+        },
+        Node::Bin(op, l, r) => {
+            let (lt, rt) = (ref_type(l, is_int)?, ref_type(r, is_int)?);
+            match (op.as_str(), lt, rt) {
+                ("+" | "-" | "*" | "/" | "%" | "**" | "<<" | ">>", true, true) => Some(true),
+                ("&" | "|" | "^", a, b) if a == b => Some(a),
+                ("<" | "<=" | ">" | ">=", true, true) => Some(false),
+                ("==" | "!=", a, b) if a == b => Some(false),
+                ("&&" | "||", false, false) => Some(false),
+                _ => None,
+            }
+        }
+    }
+}
+
+/// expected outcome of `toks` over int / bool operand kinds (primary values), if the reference covers it
+fn reference_outcome(toks: &[Tok], ks: &[&OperandKind]) -> Option<Sig> {
+    let mut vals = Vec::new();
+    for (i, k) in ks.iter().enumerate() {
+        vals.push(match k.name {
+            "int" => RV::I(alt_lit(k, i, 0).parse().ok()?),
+            "bool" => RV::B(alt_lit(k, i, 0) == "true"),
+            _ => return None,
+        });
+    }
+    let mut p = Parser { toks, i: 0 };
+    let mut leaf = 0;
+    let tree = p.tree(0, &mut leaf)?;
+    if p.i != toks.len() || leaf != ks.len() {
+        return None;
+    }
+    let is_int: Vec<bool> = vals.iter().map(|v| matches!(v, RV::I(_))).collect();
+    ref_type(&tree, &is_int)?;
+    match ref_eval(&tree, &vals) {
+        Ok(RV::I(v)) => Some(Sig::Value(format!("({v}, 0)"))),
+        Ok(RV::B(v)) => Some(Sig::Value(format!("({v}, 0)"))),
+        Err(Some(kind)) => Some(Sig::Error(kind.to_string())),
+        Err(None) => None,
+    }
+}
+
 fn flat(toks: &[Tok]) -> String {
     let mut s = String::new();
     for t in toks {
@@ -255,6 +407,8 @@ struct Acc {
     programs: u64,
     cases: u64,
     accepted_flat: u64,
+    /// cases whose outcome was also compared with the reference evaluation of the table grouping
+    anchored: u64,
     discriminated: BTreeSet<String>,
     seen_pairs: BTreeSet<String>,
     sigs: BTreeSet<Sig>,
@@ -291,6 +445,16 @@ fn check(acc: &mut Acc, interp: &Interpreter, family: &str, label: &str, toks: &
                     detail: json!({"kind": "precedence", "expression": flat_text, "operand_kinds": kn, "constant_operand_mask": format!("{constant:b}"), "all_run_time_outcome": format!("{s_flat:?}"), "with_constants_outcome": format!("{s_mask:?}")}),
                 });
             }
+        }
+    }
+    if let Some(want) = reference_outcome(toks, ks) {
+        acc.anchored += 1;
+        if s_flat != want {
+            let kn: Vec<&str> = ks.iter().map(|k| k.name).collect();
+            acc.violations.push(Violation {
+                sig: format!("C14|value-differs-from-the-table-grouping-evaluated-by-reference|{family}|{label}"),
+                detail: json!({"kind": "precedence", "expression": flat_text, "prescribed": table_text, "operand_kinds": kn, "operand_values": ks.iter().enumerate().map(|(i, k)| alt_lit(k, i, 0)).collect::<Vec<_>>(), "observed": format!("{s_flat:?}"), "expected": format!("{want:?}")}),
+            });
         }
     }
     if s_flat != s_table {
@@ -359,6 +523,7 @@ pub fn run(tier: &str) -> i32 {
         acc.programs += a.programs;
         acc.cases += a.cases;
         acc.accepted_flat += a.accepted_flat;
+        acc.anchored += a.anchored;
         acc.discriminated.extend(a.discriminated);
         acc.seen_pairs.extend(a.seen_pairs);
         acc.sigs.extend(a.sigs);
@@ -606,7 +771,7 @@ pub fn run(tier: &str) -> i32 {
         let t = vec![Tok::Operand("a".into()), Tok::Bin("@".into()), Tok::Operand("b".into()), Tok::Postfix("$]".into())];
         json!({"expression": flat(&t), "prescribed": by_table(&t)})
     });
-    let Acc { programs, cases, accepted_flat, discriminated, seen_pairs, sigs, violations } = acc;
+    let Acc { programs, cases, accepted_flat, anchored, discriminated, seen_pairs, sigs, violations } = acc;
     report.violations(violations);
     let coverage = json!({
         "states": cases,
@@ -615,6 +780,7 @@ pub fn run(tier: &str) -> i32 {
         "expressions": cases,
         "programs_run": programs,
         "accepted_unparenthesised": accepted_flat,
+        "cases_also_compared_with_the_reference_value_of_the_table_grouping": anchored,
         "binary_operators": BIN_OPS.len(),
         "operand_kinds": nk,
         "operator_pairs": seen_pairs.len(),
